@@ -6,6 +6,7 @@ import (
 	"github.com/willabides/rjson"
 
 	h "verif/internal/harness"
+	"verif/internal/refmodel"
 )
 
 func firstTokenPlausible(d []byte) bool {
@@ -94,6 +95,32 @@ func RunC02(c *Ctx) {
 			}
 		} else {
 			c.Rec.C("class_malformed")
+		}
+		// a fifth Buffer state: the Buffer is the one the ENCLOSING handler traversal is using (the
+		// documented way to skip a member from inside a handler); SkipValue on the member must behave
+		// as on any other byte string (seeded change C02r8-m1: a 'Buffer in use' guard)
+		if m.OK && len(d) <= 4096 && (m.Node.Kind == refmodel.KArray || m.Node.Kind == refmodel.KObject) && c.Rec.R.Cases%4 == 0 {
+			c.Guarded(cs, "SkipValue (from inside a handler, with the traversal's Buffer)", func() {
+				i := 0
+				check := func(data []byte) (int, error) {
+					if i < len(m.Node.Elems) {
+						el := m.Node.Elems[i]
+						p, err := rjson.SkipValue(data, &long)
+						c.Rec.Evals(1)
+						c.Rec.C("skipvalue_calls_from_inside_a_handler_with_the_traversals_buffer")
+						if err != nil || p != el.End-el.Start {
+							c.Rec.Violate(cs, "SkipValue(member, the enclosing traversal's Buffer) != end of the member", "SkipValue", fmt.Sprintf("p=%d err=<nil>", el.End-el.Start), fmt.Sprintf("member %d: p=%d err=%s", i, p, errStr(err)))
+						}
+					}
+					i++
+					return 0, nil
+				}
+				if m.Node.Kind == refmodel.KArray {
+					rjson.HandleArrayValues(d, rjson.ArrayValueHandlerFunc(check), &long)
+				} else {
+					rjson.HandleObjectValues(d, rjson.ObjectValueHandlerFunc(func(k, data []byte) (int, error) { return check(data) }), &long)
+				}
+			})
 		}
 		c.Guarded(cs, "SkipValue", func() {
 			var fresh rjson.Buffer
